@@ -278,6 +278,35 @@ pub fn interval(args: &[String]) {
             }
         }
     }
+    // C11 at the solver interface (accepted steps as the callback sees them): a given first_step larger than max_step must not
+    // produce an accepted step longer than max_step
+    {
+        let mut k = 0;
+        for method in [Method::RK23, Method::DOPRI5, Method::DOP853, Method::RADAU, Method::BDF] {
+            for (x0, xend, hm, mult) in [(0.0, 2.0, 0.05, 4.0), (1.0, -1.0, 0.02, 10.0), (0.0, 3.0, 0.3, 1.5)] {
+                let p = Prob::new(Kind::Harmonic);
+                let first = hm * mult;
+                let mut rec = Recorder::new();
+                rec.thetas = vec![];
+                let c = Cfg { kind: Kind::Harmonic, method, x0, xend, rtol: 1e-4, atol: 1e-7, first: Some(first), maxstep: Some(hm), nmax: None };
+                let (mut why, mut key) = (String::new(), "");
+                match catch_unwind(AssertUnwindSafe(|| lowlevel(method, &p, x0, &p.y0(), xend, 1e-4, 1e-7, Some(first), Some(hm), None, &mut rec))) {
+                    Ok(Ok(_)) => {
+                        let m = rec.cbs.len();
+                        for (j, cb) in rec.cbs.iter().enumerate().skip(1) {
+                            let len = (cb.x - cb.xold).abs();
+                            let lim = if j == m - 1 { 1.01 * hm } else { hm };
+                            if len > lim * (1.0 + 1e-12) + 4.0 * f64::EPSILON * cb.x.abs().max(cb.xold.abs()) { key = "c11-first-step-above-max-step"; why = format!("first_step = {} > max_step = {}: accepted step {} runs from {} to {} (length {})", first, hm, j, cb.xold, cb.x, len); break; }
+                        }
+                    }
+                    Ok(Err(e)) => { why = format!("solver returns Err({:?})", e).replace('"', "'"); key = "c11-first-step-above-max-step"; }
+                    Err(_) => { key = "c04-hang-or-panic"; why = "solver panicked".into(); }
+                }
+                out("iv", 535000 + k, &c, "first-step-above-max-step", key, &why, "");
+                k += 1;
+            }
+        }
+    }
     // C11 through solve_ivp: a max_step below RK4's default step (span / 100), no first_step, both directions
     {
         let mut k = 0;
